@@ -463,9 +463,14 @@ func workC03(w *run.W) {
 				if p.Placement && !strings.HasPrefix(fc.Class, "jsight-") {
 					placements = []int{-1, 0, 2} // in place; top-level ancestor moved into MACRO+PASTE; into an INCLUDE file
 				}
+				placements = append(placements, 4) // in place, the document ends with an unpasted MACRO written without parentheses
 				for _, pl := range placements {
 					tree := fc.Tree
-					if pl >= 0 {
+					if pl == 4 {
+						m := dt.N("MACRO", "@zz").Add(dt.N("GET", "/zz").Add(dt.N("200", "any")))
+						m.NoExplicit = true
+						tree = &dt.File{Name: tree.Name, Nodes: append(append([]*dt.Node{}, tree.Nodes...), m)}
+					} else if pl >= 0 {
 						ti := topAncestor(tree)
 						if ti <= 0 {
 							continue
@@ -500,7 +505,7 @@ func c03Case(w *run.W, fc fault, placement int, r *dt.Rendered, dir string) {
 	w.Count("class_"+fc.Class, 1)
 	pr := project(r)
 	b := pr.Build(dir)
-	plName := map[int]string{-1: "in-place", 0: "in-pasted-macro", 2: "in-included-file"}[placement]
+	plName := map[int]string{-1: "in-place", 0: "in-pasted-macro", 2: "in-included-file", 4: "in-place-before-a-trailing-macro"}[placement]
 	detail := map[string]any{"project": pr, "class": fc.Class, "placement": plName}
 	if b.Panic != nil {
 		w.Violation("C03", b.Panic.Key(), fmt.Sprintf("[%s/%s] build panics: %s\n%s", fc.Class, plName, b.Panic.Value, showProject(pr)), detail)
